@@ -202,7 +202,8 @@ func specIsCtl(m hsms.Message) bool {
 //@ func (*transport).handleSelectReq
 //@ nosafety nil-deref nil-iface
 //@ requires t != nil && req != nil && specNoTypedNil(req)
-//@ emits hsms.(TransportRuntime).SendAsync, hsms.(TransportRuntime).TCPDown, hsms.(TransportRuntime).DeliverOwnedFrame, hsms.(TransportRuntime).CommitSelected, hsms.(TransportRuntime).SelectLost
+//@ modifies t.linktestCancel
+//@ emits hsms.(TransportRuntime).SendAsync, hsms.(TransportRuntime).TCPDown, hsms.(TransportRuntime).DeliverOwnedFrame, hsms.(TransportRuntime).CommitSelected, hsms.(TransportRuntime).SelectLost, go, fn:linktestCancel, hsms.(TransportRuntime).LinktestInterval
 //@ ensures [quiet]  zzCalls("hsms.(TransportRuntime).TCPDown") == 0 && zzCalls("hsms.(TransportRuntime).DeliverOwnedFrame") == 0 && zzCalls("hsms.(TransportRuntime).SelectLost") == 0 &&
 //@                  zzCalls("hsms.(TransportRuntime).SendAsync") <= 1 && zzCalls("hsms.(TransportRuntime).CommitSelected") == 1
 //@ ensures [first]  specIsCtl(req) && specCtlHeader(req)[5] == 1 && zzRet[bool]("hsms.(TransportRuntime).CommitSelected") ==>
@@ -216,7 +217,8 @@ func specIsCtl(m hsms.Message) bool {
 //@ func (*transport).handleDeselectReq
 //@ nosafety nil-deref nil-iface
 //@ requires t != nil && msg != nil && specNoTypedNil(msg)
-//@ emits hsms.(TransportRuntime).SendAsync, hsms.(TransportRuntime).TCPDown, hsms.(TransportRuntime).DeliverOwnedFrame, hsms.(TransportRuntime).State, hsms.(TransportRuntime).SelectLost, hsms.(TransportRuntime).CommitSelected
+//@ modifies t.linktestCancel
+//@ emits hsms.(TransportRuntime).SendAsync, hsms.(TransportRuntime).TCPDown, hsms.(TransportRuntime).DeliverOwnedFrame, hsms.(TransportRuntime).State, hsms.(TransportRuntime).SelectLost, hsms.(TransportRuntime).CommitSelected, fn:linktestCancel
 //@ ensures [quiet]  zzCalls("hsms.(TransportRuntime).TCPDown") == 0 && zzCalls("hsms.(TransportRuntime).DeliverOwnedFrame") == 0 && zzCalls("hsms.(TransportRuntime).CommitSelected") == 0 &&
 //@                  zzCalls("hsms.(TransportRuntime).SendAsync") <= 1
 //@ ensures [sel]    specIsCtl(msg) && specCtlHeader(msg)[5] == 3 && zzRet[hsms.ConnState]("hsms.(TransportRuntime).State") == hsms.SelectedState ==>
@@ -235,7 +237,8 @@ func specIsCtl(m hsms.Message) bool {
 //@ func (*transport).handleControlReq
 //@ nosafety nil-deref nil-iface
 //@ requires t != nil && msg != nil && specIsCtl(msg)
-//@ emits hsmsss.(*transport).handleSelectReq, hsmsss.(*transport).handleLinktestReq, hsmsss.(*transport).handleDeselectReq, hsms.(TransportRuntime).SendAsync, hsms.(TransportRuntime).TCPDown, hsms.(TransportRuntime).DeliverOwnedFrame, hsms.(TransportRuntime).State, hsms.(TransportRuntime).SelectLost, hsms.(TransportRuntime).CommitSelected
+//@ modifies t.linktestCancel
+//@ emits hsmsss.(*transport).handleSelectReq, hsmsss.(*transport).handleLinktestReq, hsmsss.(*transport).handleDeselectReq, hsms.(TransportRuntime).SendAsync, hsms.(TransportRuntime).TCPDown, hsms.(TransportRuntime).DeliverOwnedFrame, hsms.(TransportRuntime).State, hsms.(TransportRuntime).SelectLost, hsms.(TransportRuntime).CommitSelected, go, fn:linktestCancel, hsms.(TransportRuntime).LinktestInterval
 //@ ensures [select]   specCtlHeader(msg)[5] == 1 ==> zzCalls("hsmsss.(*transport).handleSelectReq") == 1 && zzCalls("hsmsss.(*transport).handleLinktestReq") == 0 && zzCalls("hsmsss.(*transport).handleDeselectReq") == 0
 //@ ensures [deselect] specCtlHeader(msg)[5] == 3 ==> zzCalls("hsmsss.(*transport).handleDeselectReq") == 1 && zzCalls("hsmsss.(*transport).handleSelectReq") == 0 && zzCalls("hsmsss.(*transport).handleLinktestReq") == 0
 //@ ensures [linktest] specCtlHeader(msg)[5] == 5 ==> zzCalls("hsmsss.(*transport).handleLinktestReq") == 1 && zzCalls("hsmsss.(*transport).handleSelectReq") == 0 && zzCalls("hsmsss.(*transport).handleDeselectReq") == 0
@@ -248,7 +251,8 @@ func specIsCtl(m hsms.Message) bool {
 //@ nosafety nil-deref nil-iface
 //@ paths returns
 //@ requires t != nil && len(frame) >= 10
-//@ emits hsmsss.(*transport).sendReject, hsmsss.(*transport).sendRejectNotSelected, hsmsss.(*transport).sendRejectTransactionNotOpen, hsmsss.(*transport).handleControlReq, hsmsss.(*transport).handleSeparateReq, hsmsss.(*transport).handleSelectReq, hsmsss.(*transport).handleLinktestReq, hsmsss.(*transport).handleDeselectReq, hsms.(TransportRuntime).SendAsync, hsms.(TransportRuntime).TCPDown, hsms.(TransportRuntime).DeliverOwnedFrame, hsms.(TransportRuntime).State, hsms.(TransportRuntime).SelectLost, hsms.(TransportRuntime).CommitSelected, hsms.(TransportRuntime).RouteReply
+//@ modifies t.linktestCancel
+//@ emits hsmsss.(*transport).sendReject, hsmsss.(*transport).sendRejectNotSelected, hsmsss.(*transport).sendRejectTransactionNotOpen, hsmsss.(*transport).handleControlReq, hsmsss.(*transport).handleSeparateReq, hsmsss.(*transport).handleSelectReq, hsmsss.(*transport).handleLinktestReq, hsmsss.(*transport).handleDeselectReq, hsms.(TransportRuntime).SendAsync, hsms.(TransportRuntime).TCPDown, hsms.(TransportRuntime).DeliverOwnedFrame, hsms.(TransportRuntime).State, hsms.(TransportRuntime).SelectLost, hsms.(TransportRuntime).CommitSelected, hsms.(TransportRuntime).RouteReply, go, fn:linktestCancel, hsms.(TransportRuntime).LinktestInterval
 //@ ensures [ptype]    frame[4] != 0 ==> result && zzCalls("hsmsss.(*transport).sendReject") == 1 && zzArg[byte]("hsmsss.(*transport).sendReject", 1) == frame[4] &&
 //@                    zzCalls("hsms.(TransportRuntime).TCPDown") == 0 && zzCalls("hsms.(TransportRuntime).DeliverOwnedFrame") == 0
 //@ ensures [stype]    frame[4] == 0 && !(frame[5] <= 7 || frame[5] == 9) ==> result && zzCalls("hsmsss.(*transport).sendReject") == 1 &&
